@@ -283,6 +283,14 @@ def main():
         reps, nrand = 6, 3000
     tables = [t for t in corpus.exhaustive(shapes) for _ in range(reps)] + corpus.structured(5) * 3 + \
         list(corpus.randoms(nrand, a.seed, 7, 7))
+    # more than 256 objects / properties through every format (one table per format class k = 0..5)
+    rngw = random.Random(a.seed + 99)
+    for k in range(6):
+        n, m = ((2, 300), (300, 2), (3, 270), (260, 3), (2, 1000 if a.tier == 'thorough' else 400), (330, 2))[k]
+        wt = corpus.Table(n, m, [[j for j in range(1, m + 1) if rngw.random() < 0.4] for _ in range(n)], f'wide{n}x{m}')
+        while len(tables) % 6 != k:
+            tables.append(corpus.Table(1, 1, [[1]], 'pad'))
+        tables.append(wt)
     tmp = tempfile.mkdtemp(prefix='text-', dir=os.path.dirname(os.path.abspath(a.out)))
     with open(a.out, 'w', encoding='utf-8') as f:
         def emit(d):
